@@ -1,11 +1,14 @@
 (* C23: TESTS (not theorems): the hand-derived recurrences [native_cost] / [clvm_cost] of
    Model/ShaTreeCost.v against the machine [run_chia], by computation, on small trees of every
    shape under both cost models; and the hex string of the tool against the program tree. *)
-From Clvm Require Import Model.ShaTreeCost Model.Sha256.
+From Clvm Require Import Model.ShaTreeCost Model.Sha256 Proofs.IntEncProofs.
 Open Scope N_scope.
 
 (* a cheap stand-in hash with 32-byte results (the statements are generic in the hash) *)
 Definition toy_hash (b : bytes) : bytes := be_bytes 32 (be_value b * 2654435761 + 97).
+
+Lemma toy_hash_len b : blen (toy_hash b) = 32.
+Proof. unfold toy_hash, blen. rewrite be_bytes_length. reflexivity. Qed.
 
 Definition test_prims (H : bytes -> bytes) : prims :=
   {| p_sha256 := H; p_keccak256 := fun _ => [];
